@@ -1652,8 +1652,15 @@ func ruleFallbackTwins(prog *Program, rep *Report, floor int, rels ...string) {
 // two operands. The count in the table must be the number of operands the arm reads: a larger count swallows
 // the value that follows the operand (the right operand of the enclosing operator), a smaller one leaves an
 // operand behind.
+func orZero(s string) string {
+	if s == "" {
+		return "(zero)"
+	}
+	return s
+}
+
 func ruleOpArity(prog *Program, rep *Report) {
-	rep.Rules = append(rep.Rules, "M-arity: for every operator of the script evaluator the operand count in its table entry equals the number of operands its arm of the evaluator reads (2 when the arm mentions the right operand, else 1): the count is what the evaluator removes from the stack after the arm")
+	rep.Rules = append(rep.Rules, "M-arity: for every operator of the script evaluator the operand count in its table entry equals the number of operands its arm of the evaluator reads (2 when the arm mentions the right operand, else 1): the count is what the evaluator removes from the stack after the arm; operators that share one clause of the evaluator (two spellings of one operator) have table entries that agree in every numeric and boolean field")
 	pk := prog.Pkg("jp")
 	if pk == nil {
 		rep.Errorf("M-arity: package jp not loaded")
@@ -1667,6 +1674,8 @@ func ruleOpArity(prog *Program, rep *Report) {
 		pos        token.Pos
 	}
 	arms := map[types.Object]armInfo{}
+	var groups [][]types.Object // operators that share one clause of the evaluator
+	var tagField types.Object
 	var cntField *types.Var
 	var evalPos token.Pos
 	for _, f := range pk.Syntax {
@@ -1742,16 +1751,22 @@ func ruleOpArity(prog *Program, rep *Report) {
 							return true
 						})
 					}
+					var grp []types.Object
 					for _, e := range cc.List {
 						if sel, ok := ast.Unparen(e).(*ast.SelectorExpr); ok {
 							if id, ok := ast.Unparen(sel.X).(*ast.Ident); ok {
 								if v, ok := info.Uses[id].(*types.Var); ok {
 									if _, in := local[v]; in {
 										arms[v] = armInfo{readsRight: reads, pos: cc.Pos()}
+										grp = append(grp, v)
+										tagField = info.Uses[sel.Sel]
 									}
 								}
 							}
 						}
+					}
+					if len(grp) > 1 {
+						groups = append(groups, grp)
 					}
 				}
 				evalPos = fd.Pos()
@@ -1784,6 +1799,8 @@ func ruleOpArity(prog *Program, rep *Report) {
 	}
 	// the table entries: package-level V = &T{... cnt: N ...}
 	n := 0
+	scalars := map[types.Object]map[string]string{}
+	names := map[types.Object]string{}
 	for _, f := range pk.Syntax {
 		for _, d := range f.Decls {
 			gd, ok := d.(*ast.GenDecl)
@@ -1812,10 +1829,16 @@ func ruleOpArity(prog *Program, rep *Report) {
 						continue
 					}
 					cnt := int64(0) // zero value when the field is not given
+					scal := map[string]string{}
 					for _, el := range cl.Elts {
 						kv, ok := el.(*ast.KeyValueExpr)
 						if !ok {
 							continue
+						}
+						if id, ok := kv.Key.(*ast.Ident); ok && info.Uses[id] != tagField {
+							if tv, ok := info.Types[kv.Value]; ok && tv.Value != nil && tv.Value.Kind() != constant.String {
+								scal[id.Name] = tv.Value.ExactString()
+							}
 						}
 						if id, ok := kv.Key.(*ast.Ident); ok && info.Uses[id] == cntField {
 							if tv, ok := info.Types[kv.Value]; ok && tv.Value != nil {
@@ -1823,6 +1846,8 @@ func ruleOpArity(prog *Program, rep *Report) {
 							}
 						}
 					}
+					scalars[v] = scal
+					names[v] = nm.Name
 					n++
 					want := int64(1)
 					if arm.readsRight {
@@ -1839,6 +1864,34 @@ func ruleOpArity(prog *Program, rep *Report) {
 		}
 	}
 	_ = evalPos
+	// operators that share one clause of the evaluator are one operator under two spellings (has / exists): their
+	// table entries agree in every numeric and boolean field (precedence, operand count, flags)
+	for _, g := range groups {
+		for _, o := range g[1:] {
+			a, b := scalars[g[0]], scalars[o]
+			if a == nil || b == nil {
+				continue
+			}
+			key := "jp.op:" + names[g[0]] + "=" + names[o]
+			var diff []string
+			for k, v := range a {
+				if b[k] != v {
+					diff = append(diff, fmt.Sprintf("%s: %s vs %s", k, v, orZero(b[k])))
+				}
+			}
+			for k, v := range b {
+				if _, ok := a[k]; !ok {
+					diff = append(diff, fmt.Sprintf("%s: %s vs %s", k, "(zero)", v))
+				}
+			}
+			sort.Strings(diff)
+			if len(diff) == 0 {
+				rep.Discharge("M-arity", key, prog.Pos(o.Pos()), "one evaluator clause, equal table entries")
+			} else {
+				rep.Violate(Finding{Rule: "M-arity", Key: key, Pos: prog.Pos(o.Pos()), Msg: fmt.Sprintf("operators %s and %s are evaluated by one clause of the evaluator but their table entries differ (%s): the two spellings of one operator group differently or take different operands", names[g[0]], names[o], strings.Join(diff, "; "))})
+			}
+		}
+	}
 	rep.Eval(n)
 	if n < 15 {
 		rep.Errorf("M-arity examined %d operators (floor 15)", n)
